@@ -33,7 +33,7 @@ def find_lift(ctx, parent):
     Returns (info, None) or (None, why).  info: vec (local of the vector), pos (position call terminator), pred (body of the
     position predicate), remove (terminator), remove_body, result (local or ("map", local) that holds Option<removed>)."""
     prog = ctx.prog
-    fam = [parent] + [x for x in prog.bodies.values() if x.kind == "Closure" and x.root == parent.id]
+    fam = [parent] + mu.closures_of(prog, parent)
     rems = []
     for x in fam:
         for bi, t in mu.calls(x, r"^std::vec::Vec::<T, A>::(remove|swap_remove)$"):
@@ -60,10 +60,11 @@ def find_lift(ctx, parent):
             names.append(last[3]["callee"]["def"])
             node = mu.op_local(last[3]["args"][0])
         else:
-            first = st[0]
             for s1 in st:
-                if s1[2] != "term" and s1[3].get("k") == "ref" and not s1[3]["pl"]["p"]:
-                    base = s1[3]["pl"]["l"]
+                if s1[2] != "term" and s1[3].get("k") == "ref":
+                    cb0 = mu.canon_base(parent, defs, s1[3]["pl"])
+                    if cb0 is not None:
+                        base = cb0
             break
     if not (len(names) == 2 and names[0].endswith("<impl [T]>::iter") and names[1].endswith("as std::ops::Deref>::deref")) or base is None:
         return None, "position() is not over `<vec>.iter()` (saw %s)" % names
@@ -93,7 +94,7 @@ def find_lift(ctx, parent):
         d = mu.single_def(defs, mu.op_local(mt["args"][1]))
         cap = mu.op_local(d[2]["ops"][0]) if d[2]["ops"] else None
         capd = mu.single_def(defs, cap) if cap is not None else None
-        if capd is None or capd[2].get("k") != "ref" or not capd[2]["mut"] or capd[2]["pl"]["p"] or capd[2]["pl"]["l"] != vec:
+        if capd is None or capd[2].get("k") != "ref" or not capd[2]["mut"] or mu.canon_base(parent, defs, capd[2]["pl"]) != vec:
             return None, "the closure does not capture `&mut` of the vector position() ran over"
         if mu.origin_local(parent, defs, mu.op_local(mt["args"][0])) != pos_dest:
             return None, "Option::map is not applied to the result of position()"
@@ -119,7 +120,7 @@ def find_lift(ctx, parent):
             return None, "removed index is not the Some payload of the position() result"
         rl = mu.op_local(rt["args"][0])
         rd = mu.single_def(defs, rl) if rl is not None else None
-        if rd is None or rd[1] == "term" or rd[2].get("k") != "ref" or not rd[2]["mut"] or rd[2]["pl"]["p"] or rd[2]["pl"]["l"] != vec:
+        if rd is None or rd[1] == "term" or rd[2].get("k") != "ref" or not rd[2]["mut"] or mu.canon_base(parent, defs, rd[2]["pl"]) != vec:
             return None, "remove receiver is not `&mut` of the vector position() ran over"
         info["borrow_block"] = rd[0]
         # Option<removed>: Some { remove result } on this path
@@ -128,16 +129,21 @@ def find_lift(ctx, parent):
         info["result"] = somes[0][2]["pl"]["l"] if len(somes) == 1 and not somes[0][2]["pl"]["p"] else None
     # nothing touches the vector between position() and the removal: the only `&mut vec` is the one feeding the removal,
     # and position() comes first
-    muts = []
+    # `&mut` references to the vector (directly, or reborrowed from a reference to it): between position() and the removal
+    # only the one that feeds the removal may be created; earlier ones (e.g. the reference a helper received) are the same
+    # borrow seen from outside
+    dom = mu.dominators(parent)
+    after_pos = []
     for bi, bl in enumerate(parent.blocks):
         if bl["cleanup"]:
             continue
         for s1 in bl["stmts"]:
-            if s1["s"] == "assign" and s1["rv"]["k"] == "ref" and s1["rv"]["mut"] and s1["rv"]["pl"]["l"] == vec and not s1["rv"]["pl"]["p"]:
-                muts.append(bi)
-    dom = mu.dominators(parent)
-    if len(muts) != 1 or muts[0] != info["borrow_block"] or pos_bi not in dom[muts[0]]:
-        return None, "the vector is borrowed mutably %d times / not after position()" % len(muts)
+            if s1["s"] == "assign" and s1["rv"]["k"] == "ref" and s1["rv"]["mut"] and mu.canon_base(parent, defs, s1["rv"]["pl"]) == vec:
+                if pos_bi in dom[bi] and bi != pos_bi:
+                    after_pos.append(bi)
+    if after_pos != [info["borrow_block"]]:
+        return None, "between position() and the removal the vector is borrowed mutably %d times" % len(after_pos)
+    # and nothing that holds a `&mut` to it is called in between, except the removal itself (or the map that runs it)
     return info, None
 
 
@@ -146,6 +152,16 @@ def remove_at_position(ctx, body, ob):
     """`v.remove(i)` where i is what `v.iter().position(p)` returned for the very same vector, nothing mutating it in
     between - in the closure form (`.map(|i| v.remove(i))`) or the match form."""
     parent = ctx.prog.bodies.get(body.root) if body.kind == "Closure" else body
+    if body.kind == "Closure":
+        # the function that constructs the closure; when its defining function was a helper inlined into another function,
+        # that other function (it is the one that is reachable and that the position() / map() calls now live in)
+        import inline
+        inv = inline.load_inventory(__import__("facts").VERIF)
+        makers = [x for x in ctx.prog.bodies.values() if x.kind != "Closure" and any(
+            s1["s"] == "assign" and s1["rv"]["k"] == "agg" and s1["rv"].get("def") == body.id for bl in x.blocks for s1 in bl["stmts"])]
+        listed = [x for x in makers if x.qname in inv]
+        if listed:
+            parent = listed[0]
     if parent is None:
         return False, "enclosing function not found"
     info, why = find_lift(ctx, parent)
